@@ -109,7 +109,7 @@ ADDED = {
     "C09": "Also: tiny-unit, negative-price and mixed scalar/bar alphabets, huge periods, the identity transformations before the last operation, and finite values at both ends of the f64 range (SMA/WMA/SD/BB/ATR/KC overflow there: KNOWN-FINDING lines K6-K11, exit 0; MAD, EMA, TR, MIN/MAX hold). Round 12b: deep three-level sequences (depth 10-11 / 12-13) for periods 3..8. Round 13: constant off-grid streams and a tick-grid walk of 2^22+4096 inputs on one instance, every step judged.",
     "C10": "Also: quiet streams, a 30000/200000-bar stream of two-decimal prices with flat stretches, near-extreme DataItems, one-price alphabets with ulp neighbours and negative/zero Keltner multipliers, both input paths mixed on one instance, minimal-trait types compiled and run. Round 13: DataItems obtained by deserialization (any five numbers, opens outside the range) against a plain struct.",
     "C11": "Also: multipliers 2.71828, 1e-5, 1e305, -0.0, inf; windowed constructors up to 2^25; accessors re-checked on clones, restored copies and clone_from targets after every operation; Default (also reset/cloned/formatted first) vs new on negative inputs. Round 14: SlowStochastic x every power of two +-1 in the EMA position, MACD/PPO over 13^3 triples of wrapping magnitudes.",
-    "C12": "Also: periods 65536/100000, clone_from, calls on restored (deserialized) copies, Default::default() instances (incl. the empty history), flat runs around a reset for all run lengths up to 2n+2. Round 12b: multi-deviation families (<= 3 deviations) at periods 9 and 17 (thorough 9..33) for every indicator with a period. Round 13: every period 1..=1100 and powers of two +-1 up to 2^16. Round 15: 2^32+2048 calls on one instance (3 / 17 configurations) must not panic (overflow checks on).",
+    "C12": "Also: periods 65536/100000, clone_from, calls on restored (deserialized) copies, Default::default() instances (incl. the empty history), flat runs around a reset for all run lengths up to 2n+2. Round 12b: multi-deviation families (<= 3 deviations) at periods 9 and 17 (thorough 9..33) for every indicator with a period. Round 13: every period 1..=1100 and powers of two +-1 up to 2^16. Round 15: thorough tier: 2^32+2048 calls on one instance for 17 configurations must not panic (overflow checks on).",
     "C13": "Also: regimes stair (equal typical price, different bar composition), short saw-tooth, tri4, zero-mix; bases down to 3e-7; single-regime runs for periods 2 and 3; bar-path runs of the close-/low-/high-reading indicators; MFI zero volumes. Round 13: 2.1 M / 4.2 M-step runs for every subject at periods 3 and 14.",
     "C14": "Also: streams with reset, a 1e6 spike symbol, prices around 1e300 scaled by 2^21 for indicators without running sums, period 6001, Maximum(x) = -Minimum(-x) on streams with reset (Maximum transformed before each reset). Round 13: bars with tied typical prices and different shapes under exactly representable factors.",
     "C15": "Also: bar inputs for BB/MACD/PPO, streams with reset (composite also transformed before each reset), mixed scalar/bar streams, unvalidated bars, 2^-60-unit alphabets, periods up to 257 and the documented defaults with the composite serialized+restored / cloned / clone_from'd mid-stream, Default composites against parts wired from the reported parameters. Round 13: composite vs parts at every step of a 2^22+4096-input walk; multiplier 2.618.",
